@@ -550,7 +550,14 @@ func nonNegModArith(info *types.Info, e ast.Expr) (string, bool) {
 	if !ok {
 		return "", false
 	}
-	m, ok := core.Unparen(b.Y).(*ast.BinaryExpr)
+	y := core.Unparen(b.Y)
+	if id, isID := y.(*ast.Ident); isID {
+		// `partial := len(val) % 4` named once
+		if def := soleDefOf(info, id); def != nil {
+			y = core.Unparen(def)
+		}
+	}
+	m, ok := y.(*ast.BinaryExpr)
 	if !ok || m.Op != token.REM {
 		return "", false
 	}
@@ -685,4 +692,45 @@ func nonNegField(pk *packages.Package, e ast.Expr) (string, bool) {
 		return "", false
 	}
 	return fmt.Sprintf("field %s is never negative: all %d write(s) in the package are increments, non-negative constants, or a decrement clamped to 0 in the next statement; its address is not taken", fv.Name(), writes), true
+}
+
+// soleDefOf: the initialiser of a local that is defined once (`x := e`, also as the init of an if
+// or switch) and never assigned again.
+func soleDefOf(info *types.Info, id *ast.Ident) ast.Expr {
+	obj := info.ObjectOf(id)
+	if obj == nil || core.Current == nil {
+		return nil
+	}
+	fd := core.Current.EnclosingDecl(obj.Pos())
+	if fd == nil || fd.Body == nil {
+		return nil
+	}
+	var def ast.Expr
+	n := 0
+	ast.Inspect(fd.Body, func(nd ast.Node) bool {
+		switch x := nd.(type) {
+		case *ast.AssignStmt:
+			for i, l := range x.Lhs {
+				if lid, ok := l.(*ast.Ident); ok && info.ObjectOf(lid) == obj {
+					n++
+					if len(x.Lhs) == len(x.Rhs) {
+						def = x.Rhs[i]
+					}
+				}
+			}
+		case *ast.IncDecStmt:
+			if lid, ok := x.X.(*ast.Ident); ok && info.ObjectOf(lid) == obj {
+				n++
+			}
+		case *ast.UnaryExpr:
+			if lid, ok := x.X.(*ast.Ident); ok && x.Op == token.AND && info.ObjectOf(lid) == obj {
+				n++
+			}
+		}
+		return true
+	})
+	if n != 1 {
+		return nil
+	}
+	return def
 }
